@@ -85,7 +85,7 @@ Definition arc_is (a : arc) (x1 y1 x2 y2 : Z) : bool :=
 Definition is_outline_of_bounds (ls : list line) : bool :=
   match flat_map (fun l => [lstart l; lend l]) ls with
   | [] => false
-  | p :: _ as pts =>
+  | (p :: _) as pts =>
       let mn := pmin_list p pts in let mx := pmax_list p pts in
       (px mn <? px mx) && (py mn <? py mx)
       && existsb (fun l => line_is l (px mn) (py mn) (px mx) (py mn)) ls
@@ -113,7 +113,7 @@ Definition is_rect (fs : list fragment) : res bool :=
 Definition bounding_rect (fs : list fragment) (radius : option Z) : option fragment :=
   match all_bound_points fs with
   | [] => None
-  | p :: _ as pts =>
+  | (p :: _) as pts =>
       Some (FRect (mk_rect (pmin_list p pts) (pmax_list p pts) false radius (existsb is_broken fs)))
   end.
 
